@@ -66,6 +66,8 @@ pub fn expectation(ws: &WsCase, opts: &PushOpts, first: usize) -> Expect {
     }
 }
 
+pub const UNTERMINATED_APPLIED: &str = "applied-patches-without-final-newline";
+
 pub struct C05;
 
 pub fn check_c05_like(case: &CliCase, cx: &mut CaseCtx, check_rejects_content: bool) -> Verdict {
@@ -80,6 +82,9 @@ pub fn check_c05_like(case: &CliCase, cx: &mut CaseCtx, check_rejects_content: b
         cx.label("prior-applied-state");
         spec.tree = ws.states[first].clone();
         spec.applied = Some(crate::bytes::B(ws.names()[..first].iter().map(|n| format!("{}\n", n)).collect::<String>().into_bytes()));
+        if ws.feat.iter().any(|f| f == UNTERMINATED_APPLIED) {
+            spec.applied.as_mut().unwrap().0.pop();
+        }
     }
     spec.materialise(&root);
     let mut opts = case.opts.clone();
@@ -238,6 +243,10 @@ pub fn build_cli_case(ch: &mut Chooser, cx: &mut CaseCtx, fail_chance: u32, with
     }
     let prior = if ch.chance(1, 4) { ch.below(ws.applicable() + 1) } else { 0 };
     let mut ws = ws;
+    // an applied-patches file that was edited by hand: its last line has no newline
+    if prior > 0 && ch.chance(1, 5) {
+        ws.feat.push(UNTERMINATED_APPLIED.into());
+    }
     // reject files left behind by an earlier failed push (longer than the new ones, not linked anywhere): they must
     // be replaced, not overwritten from the start
     if prior == 0 && ch.chance(1, 3) {
